@@ -354,6 +354,7 @@ func consoleConfigs(tier string) []consoleCfg {
 
 func runC16() {
 	r := seq.New("C16", tier, "exploration")
+	defer r.CrashGuard()
 	r.Rule = "one evaluation = one (event, ConsoleWriter configuration): events are the lines emitted by bounded-exhaustive logging programs (every class value and key class, containers, duplicate keys, keys equal to part names, the empty key, with/without error field and timestamp); configurations have <= 2 (quick) / 3 (thorough) deviations among PartsOrder, PartsExclude, FieldsOrder, FieldsExclude, TimeFormat, TimeLocation and the global TimeFieldFormat; the bytes written and (n, err) are compared with a reference renderer written from the statement, twice (fresh and reused writer); distinct = distinct (configuration, output); non-trivial = the event has at least one field beyond the standard parts"
 	r.Assumptions = []string{"NoColor=true, default formatters", "the parts prefix is compared exactly only when every configured part is present with the type the logger emits; otherwise only (n, err), the fields suffix and determinism are checked", "a custom part named in PartsOrder is also listed in FieldsExclude, as upstream documents", "messages contain no control characters (how the message part draws them is not specified)"}
 	if tier == "quick" {
